@@ -157,3 +157,93 @@ Definition step7 (q : q7) (a : action) : option q7 :=
 Definition init7 (cup : option N) (st : storage) : q7 :=
   {| cup7 := match cup with Some _ => true | None => false end;
      p7 := ps_poll (snd (ctx_load (pend st))); todo7 := [] |}.
+
+(* ------------------------------------------------------------------ C06 *)
+(* At most three update-check requests per check; a further attempt only after a retryable outcome (transport error
+   that is not a caller error, or a non-2xx status of an authenticated response), only while no poll interval is in
+   force, only after exactly one wait inside the k-th back-off window; all attempts in one session with pairwise
+   distinct request ids; the loop stops exactly when it must; RequestsPerCheck reports the attempts made. *)
+Definition is_2xx (st : N) : bool := ((200 <=? st) && (st <? 300))%N.
+Definition authenticated (cup : bool) (o : http_outcome) : bool :=
+  match o with HResp _ _ au _ => negb cup || au | HErr _ => false end.
+Definition retryable (cup : bool) (o : http_outcome) : bool :=
+  match o with
+  | HErr TUser => false
+  | HErr _ => true
+  | HResp st _ au _ => if cup && negb au then false else negb (is_2xx st)
+  end.
+Definition poll_after (cup : bool) (poll : option Z) (o : http_outcome) : option Z :=
+  match o with
+  | HResp _ ra au _ => if negb cup || au then parse_retry_after ra else poll
+  | HErr _ => poll
+  end.
+Definition in_window (k d : Z) : bool :=
+  let n := Z.shiftl 1 (k - 1) * 1000 in ((n - 500) * 1000000 <=? d) && (d <? (n + 500) * 1000000).
+
+Inductive ph6 :=
+| Q6Out
+| Q6Att (k : Z) (last : option http_outcome) (ready : bool)
+| Q6Rep.
+Record q6 := { cup6 : bool; poll6 : option Z; ph6_ : ph6 }.
+Definition q6_with (q : q6) (poll : option Z) (p : ph6) : q6 := {| cup6 := cup6 q; poll6 := poll; ph6_ := p |}.
+Definition poll_none (p : option Z) : bool := match p with None => true | Some _ => false end.
+
+Definition rpc_ok (cup : bool) (poll : option Z) (k : Z) (last : option http_outcome) (ready : bool) (n : Z) (ok : bool) : bool :=
+  (match last with
+   | Some o => negb ready && negb (retryable cup o && (k <? 3) && poll_none poll)
+               && Bool.eqb ok (authenticated cup o && match o with HResp st _ _ _ => is_2xx st | _ => false end)
+   | None => (k =? 0) && negb ok
+   end) && (n =? Z.max k 1).
+
+Definition step6 (q : q6) (a : action) : option q6 :=
+  match a with
+  | AEvent (EvState (CheckingForUpdates _)) =>
+      match ph6_ q with Q6Out => Some (q6_with q (poll6 q) (Q6Att 0 None true)) | _ => None end
+  | AEvent (EvResult _) =>
+      match ph6_ q with Q6Rep => Some (q6_with q (poll6 q) Q6Out) | _ => None end
+  | AHttp w o =>
+      let poll' := poll_after (cup6 q) (poll6 q) o in
+      match ph6_ q with
+      | Q6Att k last ready =>
+          if ready && (k <? 3) then Some (q6_with q poll' (Q6Att (k + 1) (Some o) false)) else None
+      | p => Some (q6_with q poll' p)
+      end
+  | ATimer (WFor d) =>
+      match ph6_ q with
+      | Q6Att k (Some o) false =>
+          if retryable (cup6 q) o && (k <? 3) && poll_none (poll6 q) && in_window k d
+          then Some (q6_with q (poll6 q) (Q6Att k (Some o) true)) else None
+      | Q6Att _ _ _ | Q6Rep => None
+      | Q6Out => Some q
+      end
+  | ATimer (WUntil _) => match ph6_ q with Q6Out => Some q | _ => None end
+  | AMetric (MRequestsPerCheck n ok) =>
+      match ph6_ q with
+      | Q6Att k last ready =>
+          if rpc_ok (cup6 q) (poll6 q) k last ready n ok then Some (q6_with q (poll6 q) Q6Rep) else None
+      | _ => None
+      end
+  | _ => Some q
+  end.
+
+(* run-time only (not part of the proved monitor): one session per check, pairwise distinct request ids *)
+Record q6i := { i_in : bool; i_sess : option (option bytes); i_reqs : list (option bytes) }.
+Definition step6ids (q : q6i) (a : action) : option q6i :=
+  match a with
+  | AEvent (EvState (CheckingForUpdates _)) => Some {| i_in := true; i_sess := None; i_reqs := i_reqs q |}
+  | AEvent (EvResult _) => Some {| i_in := false; i_sess := None; i_reqs := i_reqs q |}
+  | AHttp w _ =>
+      let s := ws_session (w_sum w) in let r := ws_request (w_sum w) in
+      if existsb (obytes_eqb r) (i_reqs q) then None
+      else if i_in q then
+             match i_sess q with
+             | Some s0 => if obytes_eqb s s0 then Some {| i_in := true; i_sess := Some s0; i_reqs := r :: i_reqs q |} else None
+             | None => Some {| i_in := true; i_sess := Some s; i_reqs := r :: i_reqs q |}
+             end
+           else Some {| i_in := false; i_sess := None; i_reqs := r :: i_reqs q |}
+  | _ => Some q
+  end.
+
+Definition init6 (ep : entry_point) (cup : option N) (st : storage) : q6 :=
+  {| cup6 := match cup with Some _ => true | None => false end;
+     poll6 := ps_poll (snd (ctx_load (pend st))); ph6_ := Q6Out |}.
